@@ -34,6 +34,8 @@ ASSUMPTIONS = [
 
 A, Bv = [1, 2, 3], [10, 20]
 REGIONS = [([1], [10]), ([1, 2], [10, 20]), ([2, 3], [20]), ([3], [10, 20]),
+           # (a fractional coordinate value joining integer ones)
+           ([1.5, 3], [10]),
            ([2], [10]), ([1, 3], [10]), ([1, 2, 3], [10, 20]), ([3], [20]),
            ([1], [20])]
 ELLB = [[20], [10, 20]]
@@ -62,7 +64,7 @@ def configs(tier):
 
 
 def alphabet(tier, expanded, extent_a):
-    nreg = 4 if tier == "quick" else len(REGIONS)
+    nreg = 5 if tier == "quick" else len(REGIONS)
     ev = []
     cs = [[5]] if expanded else [None]
     if expanded and tier == "thorough":
